@@ -426,6 +426,48 @@ func c37(r *Run) {
 		r.check(okU, "C37.R1", "BuildBlock:drops-certificates-beyond-the-window", w.rel(bb.Pos()), "", "BuildBlock includes certificates that expire later than timestamp + validity window: they can be referenced again once the first inclusion left the replay window")
 		ir := findEffects(bb, "call (x/dsmr.TimeValidityWindow).IsRepeat(p0.validityWindow, p1, x/dsmr.NewValidityWindowBlock(p2), p3, *)")
 		r.check(len(ir) == 1, "C37.R2", "BuildBlock:IsRepeat(parent, timestamp)", w.rel(bb.Pos()), "", "BuildBlock does not query the validity window for repeats relative to the parent at the block timestamp")
+		// the repeat bit tested for a certificate is the bit of that certificate: IsRepeat is asked about a slice
+		// that holds certificate i of the gathered list at position i (all of them), and the bit tested before
+		// appending gathered[i] is bit i
+		const G = "(*x/dsmr.ChunkStorage).GatherChunkCerts(p0.storage)"
+		okI, whyI := len(ir) == 1 && len(aps) == 1, "IsRepeat / the append of available certificates not found"
+		if okI {
+			ira := callArgs(ir[0].Ins.(ssa.CallInstruction))
+			S := strip(ira[len(ira)-1])
+			ms, isMS := S.(*ssa.MakeSlice)
+			switch {
+			case !isMS || term(ms.Len) != "builtin.len("+G+")":
+				okI, whyI = false, "the slice given to IsRepeat is not made with one slot per gathered certificate: "+term(S)
+			default:
+				st := findEffects(bb, "store "+term(S)+"[*] = alloc(complit)")
+				cp := findEffects(bb, "store alloc(complit).ChunkCertificate = *"+G+"[*]")
+				if len(st) != 1 || len(cp) != 1 {
+					okI, whyI = false, "the slots of the slice given to IsRepeat are not filled from the gathered certificates"
+					break
+				}
+				slot := strings.TrimSuffix(strings.TrimPrefix(st[0].Str, "store "+term(S)+"["), "] = alloc(complit)")
+				src := strings.TrimSuffix(strings.TrimPrefix(cp[0].Str, "store alloc(complit).ChunkCertificate = *"+G+"["), "]")
+				if slot != src {
+					okI, whyI = false, "slot "+slot+" of the slice given to IsRepeat holds gathered certificate "+src
+				}
+				for _, c := range st[0].Conds() {
+					if strings.Contains(c, G+"[") {
+						okI, whyI = false, "a gathered certificate can be left out of the slice given to IsRepeat, which shifts the positions of the following ones: "+c
+					}
+				}
+				// the tested bit
+				ct := findEffects(bb, "call (ago/utils/set.Bits).Contains(*")
+				if okI && len(ct) == 1 {
+					bit := term(callArgs(ct[0].Ins.(ssa.CallInstruction))[1])
+					if !strings.Contains(aps[0].Str, "["+G+"["+bit+"]]") {
+						okI, whyI = false, "the repeat bit tested ("+bit+") is not the position of the certificate that is appended"
+					}
+				} else if okI {
+					okI, whyI = false, "the repeat set is not tested exactly once"
+				}
+			}
+		}
+		r.check(okI, "C37.R2", "BuildBlock:repeat-bit-of-the-same-certificate", w.rel(bb.Pos()), "slice[i] = gathered[i] for every i; bit i tested before appending gathered[i]", whyI)
 	}
 	if vf != nil {
 		// an If comparing cert.Expiry with block.Timestamp whose failing edge returns an error, on every path to success
@@ -698,6 +740,12 @@ func c38(r *Run) {
 				exp = true
 				h, _ := innermostLoop(u.Block())
 				exp = exp && h != nil && loopExitsOnlyByReturnErr(h)
+				// no expired transaction is filtered out: nothing that controls the call tests the element itself
+				for _, c := range condStrings(ctrlConds(u.Block())) {
+					if strings.Contains(c, "SetMin(p0.pending, p2.BlockHeader.Timestamp)[") {
+						exp = false
+					}
+				}
 			}
 			if strings.Contains(t, ".Chunks[") && strings.Contains(t, ".Txs[") {
 				accd = hasMatch(condStrings(ctrlConds(u.Block())), "(*internal/eheap.ExpiryHeap).Has(p0.pending, *)")
